@@ -56,6 +56,8 @@ def _impl_unobjid(vs, as_str):
         out = []
         for v in vs:
             out += _impl_unobjid([v], as_str)
+        if all(len(o) == 7 for o in out):
+            out[0] = ['array-call-raises:' + core.exc_kind(e)]
         return out
 
 
@@ -116,6 +118,9 @@ def _impl_unspec(vs, as_str):
         out = []
         for v in vs:
             out += _impl_unspec([v], as_str)
+        if all(len(o['f']) == 5 for o in out):
+            # every element converts on its own, the array of them does not: the elementwise map is broken for arrays
+            out[0] = {'f': ['array-call-raises:' + core.exc_kind(e)], 's': '', 'index': -1}
         return out
 
 
@@ -386,7 +391,7 @@ def _spec(ctx):
         else:
             if t[4] != 0 and kind.endswith('line'):
                 c['line'] = t[4]
-        if rng.random() < 0.3 and 0 <= t[3]:
+        if rng.random() < 0.3:      # (a negative number written as a decimal string is refused like the number)
             c['run2d'] = str(t[3])
             c['kind'] += ':digits'
         cases.append(c)
